@@ -5,15 +5,16 @@ V = os.path.dirname(os.path.dirname(os.path.abspath(__file__)))
 rows, n, caught = [], 0, 0
 for d in sorted(os.listdir(f"{V}/seeded")):
     m = json.load(open(f"{V}/seeded/{d}/meta.json"))
-    n += 1
-    caught += bool(m["caught_by_quick_check"])
+    valid = m.get("valid_on_current_tree", True)
+    n += valid
+    caught += bool(m["caught_by_quick_check"]) and valid
     how = re.sub(r"^caught by \./check \w+ --tier quick: obligation ", "", m["check_result"])
-    rows.append(f"| {d} | {m.get('round', 1)} | {m['needs_to_manifest'].replace('|', '/')[:260]} | {'yes' if m['caught_by_quick_check'] else '**no**'} | {how.replace('|', '/')[:420]} |")
+    rows.append(f"| {d} | {m.get('round', 1)} | {m['needs_to_manifest'].replace('|', '/')[:260]} | {'yes' if m['caught_by_quick_check'] else ('**no**' if m.get('valid_on_current_tree', True) else 'n/a (no longer breaking)')} | {how.replace('|', '/')[:420]} |")
 table = ("| seeded change | round | what it needs to manifest | caught by the property's quick check | by which obligation / why not |\n|---|---|---|---|---|\n" + "\n".join(rows))
 p = f"{V}/DESIGN.md"
 s = open(p).read()
 b, e = "<!-- seeded-table-begin -->", "<!-- seeded-table-end -->"
 i, j = s.index(b), s.index(e)
-s = s[:i + len(b)] + f"\n{n} changes, {caught} caught by the quick tier of the property's own check.\n\n" + table + "\n" + s[j:]
+s = s[:i + len(b)] + f"\n{n} changes that break their property on the current tree, {caught} caught by the quick tier of the property's own check.\n\n" + table + "\n" + s[j:]
 open(p, "w").write(s)
 print(n, caught)
